@@ -224,13 +224,21 @@ def drive(PositionGrid, alg, N, text, order_seed=0):
 
 def shards(tier, seed):
     n, per = (8, 25) if tier == "quick" else (16, 300)
-    return [{"rseed": seed * 1000 + i, "count": per} for i in range(n)]
+    out = [{"rseed": seed * 1000 + i, "count": per} for i in range(n)]
+    if tier == "thorough":
+        out.append({"kind": "repo_tests", "modules": ["tests/test_fullgrid.py"], "rseed": 0, "count": 0})
+    return out
 
 
 def run_shard(spec):
     geom3.install()      # cross-cutting: the direction grid's own getters are judged too (C03 monitors)
     c16.install()        # and the radial parser (C16 monitors)
     PositionGrid = install()
+    if spec.get("kind") == "repo_tests":
+        from vlib import repo_tests
+        from vlib.props import c02, c09, c07
+        c02.install(); c09.install(); c07.install()
+        return repo_tests.run(spec["modules"])
     rng = random.Random(spec["rseed"])
     for it in range(spec["count"]):
         alg = rng.choice(["ico", "cube3D", "randomS"])
